@@ -14,9 +14,10 @@ use grafeo_common::utils::error::{Error, Result};
 use grafeo_core::execution::DataChunk;
 use grafeo_core::execution::operators::JoinType;
 use grafeo_core::execution::operators::{
-    BinaryFilterOp, FilterExpression, FilterOperator, HashAggregateOperator, JoinCondition,
-    LimitOperator, NestedLoopJoinOperator, Operator, OperatorError, Predicate, ProjectExpr,
-    ProjectOperator, SimpleAggregateOperator, SkipOperator, SortOperator, UnaryFilterOp,
+    BinaryFilterOp, DistinctOperator, FilterExpression, FilterOperator, HashAggregateOperator,
+    JoinCondition, LimitOperator, NestedLoopJoinOperator, Operator, OperatorError, Predicate,
+    ProjectExpr, ProjectOperator, SimpleAggregateOperator, SkipOperator, SortOperator,
+    UnaryFilterOp,
 };
 use grafeo_core::graph::rdf::{Literal, RdfStore, Term, Triple, TriplePattern};
 
@@ -98,7 +99,13 @@ impl RdfPlanner {
             LogicalOperator::LeftJoin(join) => self.plan_left_join(join),
             LogicalOperator::AntiJoin(join) => self.plan_anti_join(join),
             LogicalOperator::Union(union) => self.plan_union(union),
-            LogicalOperator::Distinct(distinct) => self.plan_operator(&distinct.input),
+            LogicalOperator::Distinct(distinct) => {
+                let (input_op, columns) = self.plan_operator(&distinct.input)?;
+                let schema = vec![LogicalType::Any; columns.len()];
+                let operator: Box<dyn Operator> =
+                    Box::new(DistinctOperator::new(input_op, schema));
+                Ok((operator, columns))
+            }
             LogicalOperator::InsertTriple(insert) => self.plan_insert_triple(insert),
             LogicalOperator::DeleteTriple(delete) => self.plan_delete_triple(delete),
             LogicalOperator::Modify(modify) => self.plan_modify(modify),
